@@ -391,6 +391,14 @@ impl VersionSet {
             }
         }
 
+        if maybe_manifest_read_error.is_none() && manifest_reader.encountered_corruption() {
+            // Unlike the write-ahead log, a manifest with a damaged record in it cannot be used:
+            // the version it describes would silently lack or resurrect table files
+            maybe_manifest_read_error = Some(RecoverError::ManifestParse(
+                "The manifest file is corrupted. A record failed its integrity checks.".to_string(),
+            ));
+        }
+
         if maybe_manifest_read_error.is_none() {
             if maybe_curr_file_num.is_none() {
                 maybe_manifest_read_error = Some(RecoverError::ManifestParse(
